@@ -239,6 +239,7 @@ static lzma_ret enc_feed(enc_run *e, const uint8_t *in, size_t n, lzma_action ac
 		size_t left = end - e->fed;
 		size_t ai = left;
 		if (action == LZMA_RUN && left > 1 && vrng_chance(&e->pr, 1, 2)) ai = 1 + (size_t)vrng_below64(&e->pr, left);
+		if (ai > vh_window_max()) ai = vh_window_max();   // the guard-page window holds at most this much
 		lzma_action a = (action != LZMA_RUN && ai == left) ? action : LZMA_RUN;
 		for (;;) {
 			size_t ao = e->tiny ? 1 + vrng_below(&e->pr, 3) : 1 + vrng_logsize(&e->pr, 200000);
